@@ -463,6 +463,33 @@ fn run_collections(args: &Args, rep: &mut Report) {
                     rep.evaluations += 1;
                     rep.distinct.insert(fnv(fnv(n as u64, mode as u64 + 900), std::mem::size_of::<$T>() as u64));
                 }
+                // a buffer that is emptied and refilled with ever larger payloads still grows geometrically
+                if std::mem::size_of::<$T>() > 0 {
+                    let b = Bump::new();
+                    let mut v: BVec<$T> = BVec::new_in(&b);
+                    let mut changes = 0usize;
+                    let mut last_cap = v.capacity();
+                    let top = n.min(4000);
+                    for k in 1..=top {
+                        if k % 2 == 0 {
+                            v.clear();
+                        } else {
+                            v.truncate(v.len() / 3);
+                        }
+                        let payload: Vec<$T> = (0..k).map(|i| $mk(i)).collect();
+                        v.extend_from_slice(&payload);
+                        b.alloc(1u8);
+                        if v.capacity() != last_cap {
+                            changes += 1;
+                            last_cap = v.capacity();
+                        }
+                    }
+                    if changes > 3 + log2f(top) {
+                        rep.violate("C18", format!("C18/vec<{}>/reallocations-not-logarithmic/clear-and-refill", $name), format!("{} capacity changes while refilling up to {} elements (bound {})", changes, top, 3 + log2f(top)));
+                    }
+                    rep.bump("c18.vec_refill_cases");
+                    rep.evaluations += 1;
+                }
             }
         }};
     }
@@ -542,6 +569,29 @@ fn run_collections(args: &Args, rep: &mut Report) {
         rep.bump("c18.string_capacity_cases");
         rep.evaluations += 1;
         rep.distinct.insert(fnv(n as u64, k as u64 + 5555));
+    }
+    for &top in (if miri { &[30usize][..] } else { &[500usize, 4000][..] }) {
+        let b = Bump::new();
+        let mut s = BString::new_in(&b);
+        let mut changes = 0;
+        let mut last_cap = s.capacity();
+        for k in 1..=top {
+            s.clear();
+            for _ in 0..k {
+                s.push('q');
+            }
+            s.truncate(k / 2);
+            s.push_str(&"é".repeat(k / 2 + 1));
+            b.alloc(1u8);
+            if s.capacity() != last_cap {
+                changes += 1;
+                last_cap = s.capacity();
+            }
+        }
+        if changes > 4 + log2f(top * 2) {
+            rep.violate("C18", "C18/string/reallocations-not-logarithmic/clear-and-refill", format!("{} capacity changes up to {} bytes", changes, top * 2));
+        }
+        rep.evaluations += 1;
     }
     for &n in (if miri { &[40usize][..] } else { &[10usize, 1000, 100_000][..] }) {
         let b = Bump::new();
